@@ -1,5 +1,6 @@
 import SC.Proofs.HasPrefix
 import SC.Proofs.Width2
+import SC.Proofs.FoldFacts
 namespace Utf8
 open A
 open Fold
@@ -27,21 +28,6 @@ theorem wsum_le_of_prefix_c (fold : Nat → Nat) (c : Nat) (P X : List (Nat × N
 def hasPrefixUnicode (mayShrink3 : Bytes → Bool) (s p : Bytes) : Bool × Bool :=
   if p.length > s.length * 3 ∨ (p.length > s.length * 2 ∧ mayShrink3 p = false) then (false, true)
   else hpAscii caseFold s p
-
-theorem caseFold_idem' (r : Nat) : caseFold (caseFold r) = caseFold r := by
-  by_cases h : caseFold r = r
-  · rw [h, h]
-  · -- the value of a changed look-up is a fixed point: checked over the entries
-    have hfix : Gen.T121.cfTree.toList.all (fun e => caseFold e.2.2 == e.2.2) = true := by decide +kernel
-    unfold caseFold at h
-    rw [forceNat_eq] at h
-    have hm := lookupOr_ne Gen.T121.cfTree (hashCF r) r h
-    have := List.all_eq_true.mp hfix _ hm
-    simp only [beq_iff_eq] at this
-    have e : caseFold r = lookupOr Gen.T121.cfTree (hashCF r) r := by unfold caseFold; rw [forceNat_eq]
-    rw [e]; exact this
-
-theorem caseFold_lower : ∀ b : UInt8, b < 0x80 → caseFold b.toNat = (lower b).toNat := by decide +kernel
 
 /-- the verifier's contract, for the real fold table and arbitrary bytes: exactly what the search loops assume -/
 theorem hasPrefixUnicode_spec (mayShrink3 : Bytes → Bool)
